@@ -5,10 +5,11 @@
 namespace Csvq.Ref
 
 def selectPipeline : List (String × List String) := [
-  ("Select", ["selectEntity", "query.OrderByClause => view.OrderBy", "limitClause.OffsetClause => view.Offset", "limitClause.Type => view.Limit", "view.Fix"]),
+  ("Select", ["selectQuery"]),
+  ("selectQuery", ["selectEntity", "query.OrderByClause => view.OrderBy", "limitClause.OffsetClause => view.Offset", "limitClause.Type => view.Limit", "view.Fix"]),
   ("selectEntity", ["selectSet", "LoadView", "entity.WhereClause => view.Where", "entity.GroupByClause => view.GroupBy", "entity.HavingClause => view.Having", "view.Select"]),
   ("selectSetEntity", ["Select", "selectEntity", "view.Fix"]),
-  ("selectSet", ["selectSetEntity", "scope.RecursiveTable => selectSetForRecursion", "selectSetEntity", "lview.Union", "lview.Except", "lview.Intersect"])
+  ("selectSet", ["selectSetEntity", "selectSetForRecursion", "selectSetEntity", "lview.Union", "lview.Except", "lview.Intersect"])
 ]
 
 def viewMethodPrimitives : List (String × List String) := [
